@@ -232,9 +232,21 @@ def run_case(ctx, rig, keys, plans, picks, fail, eager_first):
         ctx.evals()
         if d:
             fail("transform.eager_chain", "pure-eager chain differs from the jitted chain", f"reset: {d}")
+        # results are values, not views: what a plain-Python reset returned must not change when reset is called
+        # again with another key (a generator handing out one cached State object and re-keying it in place)
+        snap_r = (snapshot(s_e), snapshot(ts_e))
+        b.env.reset(envs.make_key((int(keys[0][0]) ^ 0x2222, (int(keys[0][1]) + 1) % 2**32)))
+        ctx.evals()
+        ctx.count("eager_alias_checks")
+        d = unchanged(s_e, snap_r[0]) or unchanged(ts_e, snap_r[1])
+        if d:
+            fail("results.reset.eager", "a later reset call changed the state returned by an earlier one", d)
         for t in range(n_chain):
-            snap_s = snapshot(s_e)
+            snap_s, prev_s = snapshot(s_e), s_e
             s_e, ts_e = b.env.step(s_e, first_actions[t])
+            d = unchanged(prev_s, snap_s)
+            if d:
+                fail("args.step.eager", "eager step modified its arguments", f"chain step {t + 1}: {d}")
             ctx.evals()
             ctx.count("eager_chain_steps")
             ctx.nontrivial(b.name, b.entry, "eager_chain", keys[0], t)
@@ -242,7 +254,6 @@ def run_case(ctx, rig, keys, plans, picks, fail, eager_first):
             if d:
                 fail("transform.eager_chain", "pure-eager chain differs from the jitted chain", f"step {t + 1}: {d}")
                 break
-            del snap_s
 
     # 3a''. event-directed eager first steps: the eager budget is tiny, so it is spent where something happens.
     # A pool of (key, first action) pairs is evaluated with the jitted step (32 keys derived from the drawn key x
